@@ -225,6 +225,29 @@ func runC13(c *Ctx) {
 			}
 		}
 	}
+	// two failing chunks with different statuses, replies permuted: the error is the one of the LOWER offset whichever reply
+	// arrives first (every concurrent path has a reduce step of its own)
+	for _, api := range []string{"readfromc", "writeat", "readat", "writeto"} {
+		for _, p := range []int{2, 3} {
+			for _, pr := range [][2]int{{0, 2}, {1, 3}, {0, 3}, {1, 2}, {2, 3}, {0, 1}} {
+				for rep := 0; rep < 2; rep++ {
+					x := &xcase{api: api, p: p, conc: 3, cr: true, cw: true, flen: 4*p + 1, n: 4*p + 1, off: 0, maxtx: 32768, src: "opaque", backend: "peerperm", regular: true}
+					plan := map[uint64]uint32{uint64(pr[0] * p): codes[(pr[0]+rep)%4], uint64(pr[1] * p): codes[(pr[1]+rep+1)%4]}
+					if plan[uint64(pr[0]*p)] == plan[uint64(pr[1]*p)] {
+						plan[uint64(pr[1]*p)] = codes[(pr[1]+rep+2)%4]
+					}
+					if isWriteAPI(api) {
+						x.flen = 2
+						x.wfail = plan
+					} else {
+						x.rfail = plan
+					}
+					c.Stat("two_failing_chunks_permuted")
+					one(x)
+				}
+			}
+		}
+	}
 	// reads that reach past the end of the file, with the chunk that lies wholly beyond the end refused (not EOF): the call still
 	// ends at the true end of the file with io.EOF, whatever order the EOF and the refusal arrive in
 	for _, api := range []string{"readat", "read", "writeto"} {
